@@ -124,6 +124,22 @@ Theorem C05_truncated_payload_rejected : forall compress bo h e hsep x p,
 Proof. exact truncated_payload_rejected. Qed.
 Print Assumptions C05_truncated_payload_rejected.
 
+(* the same for compressed arrays (any block size, raw or base64), for a decompressor that rejects incomplete blocks
+   (zlib / lzma report an incomplete stream; an assumption about the library, exercised by C18's cut enumeration):
+   every proper prefix makes the reader fail or return no data at all *)
+Theorem C05_truncated_compressed_rejected : forall compress decompress empty_ok bs,
+  (forall b q, wf b -> proper_prefix q (compress b) -> decompress bs q = None) ->
+  decompress bs [] = None ->
+  forall bo h e hsep x p,
+  wf x -> 0 < bs -> bs < hbound h ->
+  (forall b, wf b -> wf (compress b)) ->
+  lenN (chunks bs x) < hbound h ->
+  lenN (concat (map compress (chunks bs x))) < hbound h ->
+  proper_prefix p (enc_array compress bo h (Some bs) e hsep x) ->
+  rejected (read_compressed decompress empty_ok bo h e p).
+Proof. exact truncated_compressed_rejected. Qed.
+Print Assumptions C05_truncated_compressed_rejected.
+
 (* concrete, non-trivial instance: three arrays (lengths 5, 0, 9; block size 4 => 2 and 3 blocks, partial last
    block), big endian, UInt64 headers, appended base64; identity "compressor" *)
 Example C05_nonvacuous :
